@@ -3,7 +3,7 @@
 // Contracts for package durable, checked by /verif's govc (comment-only file).
 package durable
 
-//@ func durable.WriteFile props C02 C03 C04 C13
+//@ func durable.WriteFile props C02 C03 C04 C13 C19
 //@   init gOps == 0 && gRenameAt == 0 && gRemoved == emptyset("set[string]") && gLastTemp == nil
 //@   init forall r Ref :: gSyncAt[r] == 0 && gCloseAt[r] == 0 && gWriteAt[r] == 0
 //@   call os.Rename requires [C13] data-written-synced-closed-first: gWritten[f] == data && gWriteAt[f] > 0 && gSyncAt[f] > gWriteAt[f] && gCloseAt[f] > gSyncAt[f]
